@@ -9,9 +9,12 @@
 //
 // Case kinds
 //
-//	step     <cmd> <today> <before tree> <after tree> <exit> <stdout of cmd>
+//	step     <cmd> <instant: unix seconds, truncated to the hour> <zone offset s> <before tree> <after tree> <exit> <stdout of cmd>
 //	         <telemetry dir> <env stdout after> <lib mode after> <lib date after>
-//	setmode  <mode> <day> <before tree> <after tree> <ok> <lib mode> <lib date>
+//	nodir    <cmd> <zone offset s> <working dir tree before> <after> <exit> <stdout>
+//	         (HOME and XDG_CONFIG_HOME unset: os.UserConfigDir fails, no telemetry directory;
+//	         the working directory holds a generated decoy telemetry tree)
+//	setmode  <mode> <instant> <zone offset s> <before tree> <after tree> <ok> <lib mode> <lib date>
 //	         (in-process SetModeAsOf at a generated date, years 0..9999)
 //	readmode <file bytes> <lib mode> <lib date>      (in-process Dir.Mode)
 //
@@ -314,9 +317,73 @@ func days(t time.Time) int64 {
 	return d
 }
 
-func runCmd(cfg string, arg string) (stdout []byte, exit int) {
+// zones: the process time zones the command runs in.  TZ names an absolute
+// path of a TZif file written by this harness (Go's time package loads it
+// directly), so fixed offsets need no system time-zone database.  UTC+14 and
+// UTC-12 are always there: at every instant the local date of one of them is
+// not the UTC date.
+type zone struct {
+	off  int    // seconds east of UTC
+	path string // "" = TZ=UTC
+}
+
+var zones []zone
+
+func tzif(off int) []byte {
+	b := []byte("TZif")
+	b = append(b, 0)
+	b = append(b, make([]byte, 15)...)
+	be := func(v uint32) []byte { return []byte{byte(v >> 24), byte(v >> 16), byte(v >> 8), byte(v)} }
+	for _, c := range []uint32{0, 0, 0, 0, 1, 4} { // isut, isstd, leap, time, type, char counts
+		b = append(b, be(c)...)
+	}
+	b = append(b, be(uint32(int32(off)))...)
+	b = append(b, 0, 0)             // isdst, abbreviation index
+	b = append(b, 'V', 'H', 'Z', 0) // abbreviation
+	return b
+}
+
+func makeZones() {
+	dir := filepath.Join(root, "zones")
+	os.MkdirAll(dir, 0777)
+	zones = []zone{{0, ""}}
+	for _, off := range []int{14 * 3600, -12 * 3600, 13*3600 + 45*60, -11 * 3600, 5*3600 + 30*60, -8 * 3600, 3600, -9*3600 - 30*60} {
+		data := tzif(off)
+		loc, err := time.LoadLocationFromTZData("vh", data)
+		if err != nil {
+			panic(err)
+		}
+		if _, o := time.Unix(0, 0).In(loc).Zone(); o != off {
+			panic("generated zone has the wrong offset")
+		}
+		p := filepath.Join(dir, fmt.Sprintf("z%d", len(zones)))
+		if err := os.WriteFile(p, data, 0666); err != nil {
+			panic(err)
+		}
+		zones = append(zones, zone{off, p})
+	}
+}
+
+func (u *unit) genZone() zone {
+	switch r := u.rnd.Intn(100); {
+	case r < 20:
+		return zones[0]
+	case r < 45:
+		return zones[1] // UTC+14
+	case r < 70:
+		return zones[2] // UTC-12
+	default:
+		return zones[3+u.rnd.Intn(len(zones)-3)]
+	}
+}
+
+func runCmd(cfg string, arg string, z zone) (stdout []byte, exit int) {
 	cmd := exec.Command(gotelemetry, arg)
-	cmd.Env = []string{"XDG_CONFIG_HOME=" + cfg, "HOME=" + filepath.Join(cfg, "home"), "PATH=" + os.Getenv("PATH")}
+	tz := "UTC"
+	if z.path != "" {
+		tz = z.path
+	}
+	cmd.Env = []string{"XDG_CONFIG_HOME=" + cfg, "HOME=" + filepath.Join(cfg, "home"), "PATH=" + os.Getenv("PATH"), "TZ=" + tz}
 	var so bytes.Buffer
 	cmd.Stdout = &so
 	err := cmd.Run()
@@ -359,17 +426,23 @@ func (u *unit) caseSequence() {
 		default:
 			arg = "env"
 		}
+		z := u.genZone()
 		before := snapshot(tdir)
 		d0 := days(time.Now())
-		stdout, exit := runCmd(cfg, arg)
-		d1 := days(time.Now())
+		stdout, exit := runCmd(cfg, arg, z)
+		t1 := time.Now()
+		d1 := days(t1)
 		after := snapshot(tdir)
-		envOut, _ := runCmd(cfg, "env")
+		envOut, _ := runCmd(cfg, "env", u.genZone())
 		lm, ld := libMode(tdir)
 		if d0 != d1 {
 			continue // the UTC date changed while the command ran: "today" is ambiguous
 		}
-		f := []string{"step", arg, I(d1)}
+		if ls := t1.Unix() + int64(z.off); (ls-ls%86400)/86400 != d1 {
+			u.Note("local-date-differs-from-utc-date")
+		}
+		u.Note(fmt.Sprintf("zone%+d", z.off))
+		f := []string{"step", arg, I(t1.Unix() - t1.Unix()%3600), I(int64(z.off))}
 		f = encTree(before, f)
 		f = encTree(after, f)
 		// the temporary directory's name is not part of the case: replace it
@@ -380,6 +453,50 @@ func (u *unit) caseSequence() {
 		if exit != 0 {
 			u.Note("cmd-failed")
 		}
+		u.emit(f...)
+	}
+}
+
+// no user configuration directory: the command must not touch anything; the
+// working directory holds a decoy tree (mode file, local/, upload/ with
+// matching names) that a relative-path fallback would read, rewrite or clean
+func (u *unit) caseNoDir() {
+	cwd, err := os.MkdirTemp(root, "n")
+	if err != nil {
+		panic(err)
+	}
+	defer os.RemoveAll(cwd)
+	if t := u.genTree(); t != nil {
+		t.write(cwd)
+	}
+	k := 2 + u.rnd.Intn(3)
+	for i := 0; i < k; i++ {
+		arg := Pick(u.rnd, []string{"on", "local", "off", "clean", "clean", "env"})
+		z := u.genZone()
+		before := snapshot(cwd)
+		cmd := exec.Command(gotelemetry, arg)
+		tz := "UTC"
+		if z.path != "" {
+			tz = z.path
+		}
+		cmd.Env = []string{"PATH=" + os.Getenv("PATH"), "TZ=" + tz}
+		cmd.Dir = cwd
+		var so bytes.Buffer
+		cmd.Stdout = &so
+		exit := 0
+		if err := cmd.Run(); err != nil {
+			ee, ok := err.(*exec.ExitError)
+			if !ok {
+				panic(err)
+			}
+			exit = ee.ExitCode()
+		}
+		after := snapshot(cwd)
+		f := []string{"nodir", arg, I(int64(z.off))}
+		f = encTree(before, f)
+		f = encTree(after, f)
+		f = append(f, I(int64(exit)), H(so.Bytes()))
+		u.Note("nodir-cmd-" + arg)
 		u.emit(f...)
 	}
 }
@@ -407,11 +524,24 @@ func (u *unit) caseSetMode() {
 	default:
 		t = time.Date(u.rnd.Intn(10000), time.Month(1+u.rnd.Intn(12)), 1+u.rnd.Intn(28), u.rnd.Intn(24), u.rnd.Intn(60), u.rnd.Intn(60), 0, time.UTC)
 	}
+	// the same instant expressed in another zone, often near midnight so that
+	// the zone's calendar date is not the UTC date
+	if u.rnd.Chance(50) {
+		t = time.Date(t.Year(), t.Month(), t.Day(), Pick(u.rnd, []int{0, 1, 9, 10, 11, 12, 13, 22, 23}), u.rnd.Intn(60), u.rnd.Intn(60), 0, time.UTC)
+	}
+	off := 0
+	if u.rnd.Chance(85) {
+		off = Pick(u.rnd, []int{14 * 3600, -12 * 3600, 13*3600 + 45*60, -11 * 3600, 5*3600 + 30*60, -8 * 3600, 3600, -9*3600 - 30*60, 1, -1})
+		t = t.In(time.FixedZone("vh", off))
+	}
+	if y, m, d := t.Date(); func() bool { uy, um, ud := t.UTC().Date(); return y != uy || m != um || d != ud }() {
+		u.Note("setmode-local-date-differs-from-utc-date")
+	}
 	before := snapshot(tdir)
 	err = telemetry.NewDir(tdir).SetModeAsOf(mode, t)
 	after := snapshot(tdir)
 	lm, ld := libMode(tdir)
-	f := []string{"setmode", HS(mode), I(days(t))}
+	f := []string{"setmode", HS(mode), I(t.Unix()), I(int64(off))}
 	f = encTree(before, f)
 	f = encTree(after, f)
 	f = append(f, B(err == nil), HS(lm), HS(ld))
@@ -454,6 +584,7 @@ func main() {
 
 	const workers = 6
 	seed := Seed()
+	makeZones()
 	for base := 0; nCases < n; base += workers {
 		us := make([]*unit, workers)
 		var wg sync.WaitGroup
@@ -465,6 +596,8 @@ func main() {
 			go func() {
 				defer wg.Done()
 				switch {
+				case i%20 == 13:
+					u.caseNoDir()
 				case i%10 < 7:
 					u.caseSequence()
 				case i%10 < 9:
